@@ -2,7 +2,7 @@
 """Runs all twenty checks against every behaviour-preserving refactoring under /verif/neutral_seeded (written by independent sub-agents,
 each applied to a scratch copy of /repo's package) and prints which rules report it - every report is a false alarm.  Writes
 neutral_seeded/MATRIX.md.  Development tool."""
-import sys, json, shutil, subprocess, tempfile, pathlib
+import os, sys, json, shutil, subprocess, tempfile, pathlib
 from concurrent.futures import ThreadPoolExecutor
 HERE = pathlib.Path(__file__).resolve().parent.parent
 PIDS = [f"C{i:02d}" for i in range(1, 21)]
